@@ -9,8 +9,9 @@ import os
 
 # type -> (rust type, [(rust expression, json text), (second value)])
 TYPES = {
-    "u32": ("u32", [("7u32", "7"), ("4000000000u32", "4000000000")]),
-    "String": ("String", [('"alice".to_string()', '"alice"'), ('"q\\"uo te".to_string()', '"q\\"uo te"')]),
+    # (value corners: zero and the maximum, the empty string and one with a quote, a blank and a non-ASCII letter)
+    "u32": ("u32", [("0u32", "0"), ("4294967295u32", "4294967295")]),
+    "String": ("String", [('String::new()', '""'), ('"q\\"uo t\u00e9".to_string()', '"q\\"uo t\u00e9"')]),
     "bool": ("bool", [("true", "true"), ("false", "false")]),
     "OptU32": ("Option<u32>", [("Some(3u32)", "3"), ("None", "null")]),
     "VecString": ("Vec<String>", [('vec!["a".to_string(), "b".to_string()]', '["a","b"]'), ("Vec::<String>::new()", "[]")]),
